@@ -47,6 +47,7 @@ from netqasm.qlink_compat import (
     LinkLayerOKTypeK,
     LinkLayerOKTypeM,
     LinkLayerOKTypeR,
+    RandomBasis,
     RequestType,
     ReturnType,
     get_creator_node_id,
@@ -1064,6 +1065,8 @@ class Executor:
             else:
                 kwargs[field] = arg
         kwargs["type"] = RequestType(kwargs["type"])  # type: ignore
+        kwargs["random_basis_local"] = RandomBasis(kwargs["random_basis_local"])  # type: ignore
+        kwargs["random_basis_remote"] = RandomBasis(kwargs["random_basis_remote"])  # type: ignore
 
         return LinkLayerCreate(**kwargs)
 
